@@ -27,7 +27,7 @@ func init() {
 			{Name: "put-without-sendStop", Rule: "SEND-OWN", File: "pkg/eval/port.go", Old: "\tselect {\n\tcase vo.data <- v:\n\t\treturn nil\n\tcase <-vo.sendStop:\n\t\treturn *vo.sendError\n\t}", New: "\tvo.data <- v\n\treturn nil", Fire: true, Quick: true, Patterns: []string{"./pkg/eval"}},
 			{Name: "raw-send-on-port-chan", Rule: "SEND-OWN", File: "pkg/eval/builtin_fn_io.go", Old: "func repeat(fm *Frame, n int, v any) error {\n\tout := fm.ValueOutput()\n\tfor i := 0; i < n; i++ {\n\t\terr := out.Put(v)\n\t\tif err != nil {\n\t\t\treturn err\n\t\t}\n\t}", New: "func repeat(fm *Frame, n int, v any) error {\n\tfor i := 0; i < n; i++ {\n\t\tfm.ports[1].Chan <- v\n\t}", Fire: true, Patterns: []string{"./pkg/eval"}},
 			{Name: "close-sendStop-before-error", Rule: "STOP-ORDER", File: "pkg/eval/compile_effect.go", Old: "\t\t\t\t*input.sendError = errs.ReaderGone{}\n\t\t\t\tclose(input.sendStop)", New: "\t\t\t\tclose(input.sendStop)\n\t\t\t\t*input.sendError = errs.ReaderGone{}", Fire: true, Quick: true, Patterns: []string{"./pkg/eval"}},
-			{Name: "revert-fix-signal-through-port-table", Rule: "STOP-ORDER", File: "pkg/eval/compile_effect.go", Old: "\t\t\t\tinput := inputPipe\n", New: "\t\t\t\tinput := newFm.ports[0]\n\t\t\t\t_ = inputPipe\n", Fire: true, Want: "pipe's own port", Patterns: []string{"./pkg/eval"}},
+			{Name: "revert-fix-signal-through-port-table", Rule: "STOP-ORDER", File: "pkg/eval/compile_effect.go", Old: "\t\t\t\tinput := inputPipeWriter\n", New: "\t\t\t\tinput := newFm.ports[0]\n\t\t\t\t_ = inputPipeWriter\n", Fire: true, Want: "pipe's own port", Patterns: []string{"./pkg/eval"}},
 			{Name: "ports-not-closed", Rule: "STOP-ORDER", File: "pkg/eval/compile_effect.go", Old: "\t\t\tfor i, fop := range fops {\n\t\t\t\tfop.close(newFm.ports[i])\n\t\t\t}\n\t\t\twg.Done()", New: "\t\t\twg.Done()", Fire: true, Patterns: []string{"./pkg/eval"}},
 			{Name: "done-only-without-exception", Rule: "STOP-ORDER", File: "pkg/eval/compile_effect.go", Old: "\t\t\tfor i, fop := range fops {\n\t\t\t\tfop.close(newFm.ports[i])\n\t\t\t}\n\t\t\twg.Done()", New: "\t\t\tfor i, fop := range fops {\n\t\t\t\tfop.close(newFm.ports[i])\n\t\t\t}\n\t\t\tif exc != nil {\n\t\t\t\treturn\n\t\t\t}\n\t\t\twg.Done()", Fire: true, Patterns: []string{"./pkg/eval"}},
 			{Name: "done-before-close", Rule: "STOP-ORDER", File: "pkg/eval/compile_effect.go", Old: "\t\t\tfor i, fop := range fops {\n\t\t\t\tfop.close(newFm.ports[i])\n\t\t\t}\n\t\t\twg.Done()", New: "\t\t\twg.Done()\n\t\t\tfor i, fop := range fops {\n\t\t\t\tfop.close(newFm.ports[i])\n\t\t\t}", Fire: true, Patterns: []string{"./pkg/eval"}},
